@@ -2436,7 +2436,7 @@ class XonshParser(Parser):
         if cut:
             return None
         if a := self.cmd_group():
-            return self.proc_macro_arg(a, **self.span(_lnum, _col))
+            return ast.Constant(value=a, **self.span(_lnum, _col))
         self._reset(mark)
         if cmd_name := self.cmd_name():
             return cmd_name
